@@ -204,12 +204,27 @@ def rule_struct(r):
             r.check(dt in ("i4", "int32"), "sasmodels/details.py", "CallDetails.__init__", pf.unparse(st), st.lineno,
                     "int32 buffer, as the C struct's int32_t fields")
     tail = {}
+    cls = mod.cls("CallDetails")
     for name in ("num_eval", "num_weights", "num_active", "theta_par"):
-        for q, fn in mod.functions.items():
-            if q == "CallDetails." + name:
-                for s in pf.walk_stmts(fn):
-                    if isinstance(s, ast.Return) and isinstance(s.value, ast.Subscript):
-                        tail[name] = pf.const_value(s.value.slice)
+        getter, setter = None, None
+        for item in cls.body:
+            if isinstance(item, ast.FunctionDef) and item.name == name:
+                for s in pf.walk_stmts(item):
+                    if isinstance(s, ast.Return) and isinstance(s.value, ast.Subscript) and pf.unparse(s.value.value) == "self.buffer":
+                        getter = pf.const_value(s.value.slice)
+                    if isinstance(s, ast.Assign) and isinstance(s.targets[0], ast.Subscript) and pf.unparse(s.targets[0].value) == "self.buffer":
+                        setter = (pf.const_value(s.targets[0].slice), pf.unparse(s.value), pf.positional_params(item)[-1])
+        tail[name] = getter
+        r.check(getter is not None and setter is not None and setter[0] == getter and setter[1] == setter[2], "sasmodels/details.py",
+                "CallDetails.%s" % name, "getter reads buffer[%s], setter writes buffer[%s] = %s" % (getter, setter[0] if setter else "?", setter[1] if setter else "?"),
+                cls.lineno, "property and setter address the same slot")
+    for name in ("pd_par", "pd_length", "pd_offset", "pd_stride"):
+        ok = False
+        for item in cls.body:
+            if isinstance(item, ast.FunctionDef) and item.name == name:
+                rets = [s for s in pf.walk_stmts(item) if isinstance(s, ast.Return)]
+                ok = bool(rets) and pf.unparse(rets[0].value) == "self._" + name
+        r.check(ok, "sasmodels/details.py", "CallDetails.%s" % name, "returns the view self._%s" % name, cls.lineno)
     n_units = 0
     for unit, rows in sorted(res.items()):
         for row in rows:
@@ -469,7 +484,7 @@ RULES = [
     ("R-C01-carry", 61 * 3 * 4, "accumulator carry/reset pairing in every kernel", make_c_rule("R-C01-carry")),
     ("R-C01-gate", 61 * 3 * 4, "VALID and strict cutoff gate every accumulation", make_c_rule("R-C01-gate")),
     ("R-C01-restart", 61 * 3 * 3, "loop restart protocol per level", make_c_rule("R-C01-restart")),
-    ("R-C01-struct", 52, "ProblemDetails layout = CallDetails.buffer views", rule_struct),
+    ("R-C01-struct", 60, "ProblemDetails layout = CallDetails.buffer views", rule_struct),
     ("R-C01-values", 9, "value vector layout and NUM_VALUES", rule_values),
     ("R-C01-stride", 9, "stride/selection construction", rule_stride),
     ("R-C01-maxpd", 2, "max_pd refusal dominates truncation", rule_maxpd),
